@@ -25,6 +25,13 @@ ASSUMPTIONS = [
 # f1.go as regression cases and are judged like every other case.
 
 
+def generate(ctx=None):
+    """Translator: coq/Gen/Skeleton.v (call and access facts with must-hold locksets) from
+    /repo's current source; the property file carries the obligation Cxx_skeleton_assumptions."""
+    from checks import c10
+    return c10.generate(ctx)
+
+
 def setup():
     L.go_build("c02")
     L.ocaml_build("c02")
@@ -157,6 +164,8 @@ def correspondence(ctx):
 
 
 def search(ctx, violations):
+    from checks import c10
+    c10.annotate_skeleton_failure(ctx, violations, "SkeletonReader", "reader_assumptions", "Model/Lifecycle.v / GroupReader.v / ReaderModel.v", "reader.go")
     ctx.seed += 1000
     try:
         c = correspondence(ctx)
